@@ -1,0 +1,123 @@
+//go:build verif
+
+// Contracts for the verifier in /verif (comment-only; compiled only with -tags verif).
+// Macros (wfPoint, validPoint, px, py, okCurve, okScalar) are in /verif/prelude/macros.spec.
+
+package crypto
+
+//@ global eight != nil && val(eight) == 8 && eightInv != nil && val(eightInv) >= 0 && val(eightInv) % edN != 0
+
+// ----- ecpoint.go -----
+
+//@ func isOnCurve
+//@   props C06 C17
+//@   requires c != nil
+//@   ensures result <==> (x != nil && y != nil && oncurve(c, val(x), val(y)))
+
+//@ func NewECPoint
+//@   props C06 C17
+//@   requires curve != nil
+//@   ensures [C17.accept-iff-oncurve] (result1 == nil) <==> (X != nil && Y != nil && oncurve(curve, val(X), val(Y)))
+//@   ensures [C17.carries-input] result1 == nil ==> (result0 != nil && fresh(result0) && result0.curve == curve && result0.coords[0] == X && result0.coords[1] == Y)
+//@   ensures result1 != nil ==> result0 == nil
+
+//@ func NewECPointNoCurveCheck
+//@   props C06 C17
+//@   ensures result != nil && fresh(result) && result.curve == curve && result.coords[0] == X && result.coords[1] == Y
+
+//@ func (*ECPoint).X
+//@   props C06 C17
+//@   requires p != nil && p.coords[0] != nil
+//@   ensures result != nil && fresh(result) && val(result) == px(p)
+
+//@ func (*ECPoint).Y
+//@   props C06 C17
+//@   requires p != nil && p.coords[1] != nil
+//@   ensures result != nil && fresh(result) && val(result) == py(p)
+
+//@ func (*ECPoint).Add
+//@   props C06 C17
+//@   requires p != nil && wfPoint(p) && p1 != nil && wfPoint(p1)
+//@   ensures result1 == nil ==> (validPoint(result0) && fresh(result0) && result0.curve == p.curve)
+//@   ensures result1 == nil ==> (px(result0) == ecaddx(p.curve, px(p), py(p), px(p1), py(p1)) && py(result0) == ecaddy(p.curve, px(p), py(p), px(p1), py(p1)))
+//@   ensures result1 != nil ==> result0 == nil
+
+//@ func (*ECPoint).ScalarMult
+//@   props C06 C17
+//@   requires validPoint(p)
+//@   requires [scalar-not-zero-mod-order] okScalar(p.curve, k)
+//@   ensures validPoint(result) && fresh(result) && result.curve == p.curve
+//@   ensures px(result) == ecmulx(p.curve, px(p), py(p), val(k)) && py(result) == ecmuly(p.curve, px(p), py(p), val(k))
+
+//@ func ScalarBaseMult
+//@   props C06 C17
+//@   requires curve != nil
+//@   requires [scalar-not-zero-mod-order] okScalar(curve, k)
+//@   ensures validPoint(result) && fresh(result) && result.curve == curve
+//@   ensures px(result) == ecbasex(curve, val(k)) && py(result) == ecbasey(curve, val(k))
+
+//@ func (*ECPoint).IsOnCurve
+//@   props C06 C17
+//@   requires p != nil && p.curve != nil
+//@   ensures result <==> (p.coords[0] != nil && p.coords[1] != nil && oncurve(p.curve, px(p), py(p)))
+
+//@ func (*ECPoint).Curve
+//@   props C06 C17
+//@   requires p != nil
+//@   ensures result == p.curve
+
+//@ func (*ECPoint).Equals
+//@   props C06 C17
+//@   requires p != nil ==> wfPoint(p)
+//@   requires p2 != nil ==> wfPoint(p2)
+//@   ensures result <==> (p != nil && p2 != nil && px(p) == px(p2) && py(p) == py(p2))
+
+//@ func (*ECPoint).SetCurve
+//@   props C06 C17 C20
+//@   requires p != nil
+//@   modifies p.curve
+//@   ensures result == p && p.curve == curve
+
+//@ func (*ECPoint).ValidateBasic
+//@   props C06 C17
+//@   requires p != nil ==> p.curve != nil
+//@   ensures result <==> validPoint(p)
+
+//@ func (*ECPoint).EightInvEight
+//@   props C06 C17
+//@   requires validPoint(p) && isedw(p.curve)
+//@   ensures validPoint(result) && fresh(result) && result.curve == p.curve
+
+//@ func (*ECPoint).ToECDSAPubKey
+//@   props C06
+//@   requires p != nil && wfPoint(p)
+//@   ensures result != nil && fresh(result)
+
+//@ func FlattenECPoints
+//@   props C06 C17
+//@   requires forall k in 0..len(in) :: (in[k] != nil ==> allocated(in[k]))
+//@   ensures result1 == nil ==> (len(result0) == 2 * len(in) && fresh(result0))
+//@   ensures result1 == nil ==> forall k in 0..len(in) :: (in[k] != nil && result0[2*k] == in[k].coords[0] && result0[2*k+1] == in[k].coords[1] && result0[2*k] != nil && result0[2*k+1] != nil)
+//@   loop 0 invariant len(flat) == 2 * $iter && fresh(flat)
+//@   loop 0 invariant forall k in 0..$iter :: (in[k] != nil && flat[2*k] == in[k].coords[0] && flat[2*k+1] == in[k].coords[1] && flat[2*k] != nil && flat[2*k+1] != nil)
+
+//@ func UnFlattenECPoints
+//@   props C06 C17
+//@   requires curve != nil
+//@   ensures result1 == nil ==> (2 * len(result0) == len(in) && fresh(result0))
+//@   ensures [C17.unflatten-valid] (result1 == nil && (len(noCurveCheck) == 0 || !noCurveCheck[0])) ==> forall k in 0..len(result0) :: (validPoint(result0[k]) && result0[k].curve == curve && result0[k].coords[0] == in[2*k] && result0[k].coords[1] == in[2*k+1])
+//@   ensures result1 == nil ==> forall k in 0..len(result0) :: (result0[k] != nil && result0[k].coords[0] != nil && result0[k].coords[1] != nil && result0[k].curve == curve)
+//@   loop 0 invariant 0 <= j && i == 2 * j && i <= len(in) + 1 && 2 * len(unFlat) == len(in) && fresh(unFlat)
+//@   loop 0 invariant forall k in 0..j :: (unFlat[k] != nil && fresh(unFlat[k]) && allocated(unFlat[k]) && unFlat[k].curve == curve && unFlat[k].coords[0] == in[2*k] && unFlat[k].coords[1] == in[2*k+1])
+//@   loop 0 invariant (len(noCurveCheck) == 0 || !noCurveCheck[0]) ==> forall k in 0..j :: (in[2*k] != nil && in[2*k+1] != nil && oncurve(curve, val(in[2*k]), val(in[2*k+1])))
+//@   loop 1 invariant 2 * len(unFlat) == len(in) && fresh(unFlat)
+//@   loop 1 invariant forall k in 0..len(unFlat) :: (unFlat[k] != nil && fresh(unFlat[k]) && allocated(unFlat[k]) && unFlat[k].curve == curve && unFlat[k].coords[0] == in[2*k] && unFlat[k].coords[1] == in[2*k+1])
+//@   loop 1 invariant (len(noCurveCheck) == 0 || !noCurveCheck[0]) ==> forall k in 0..len(unFlat) :: (in[2*k] != nil && in[2*k+1] != nil && oncurve(curve, val(in[2*k]), val(in[2*k+1])))
+//@   loop 1 invariant forall k in 0..$iter :: (unFlat[k].coords[0] != nil && unFlat[k].coords[1] != nil)
+
+// ----- utils.go -----
+
+//@ func GenerateNTildei
+//@   props C06 C19
+//@   requires rand != nil
+//@   ensures err == nil ==> (NTildei != nil && h1i != nil && h2i != nil && val(NTildei) == val(safePrimes[0]) * val(safePrimes[1]))
